@@ -31,7 +31,8 @@ def serial_of(y, m, d):
 
 def typed(spec):
     k = spec[0]
-    if k in ('int', 'float', 'npint', 'npfloat', 'Number'):
+    if k in ('int', 'float', 'npint', 'npfloat', 'npint32', 'npfloat32',
+             'Number'):
         return ('num', float(spec[1]))
     if k == 'sci':
         return ('num', float(spec[1]))
@@ -196,7 +197,13 @@ def number_spellings(x, direct=True):
         out.append(('float', 'native', ['float', float(x)]))
         if integral:
             out.append(('npint', 'numpy', ['npint', int(x)]))
+            if abs(int(x)) < 2 ** 31:
+                out.append(('npint32', 'numpy', ['npint32', int(x)]))
         out.append(('npfloat', 'numpy', ['npfloat', float(x)]))
+        import struct
+        if struct.unpack('f', struct.pack('f', float(x)))[0] == float(x):
+            # exactly representable in single precision
+            out.append(('npfloat32', 'numpy', ['npfloat32', float(x)]))
         if integral:
             out.append(('Number-int', 'object', ['Number', int(x)]))
         out.append(('Number-float', 'object', ['Number', float(x)]))
